@@ -24,7 +24,7 @@ verus! {
 //%item parser.rs Search pub enum Search
 //%item parser.rs Expression pub enum Expression
 
-//%include spec/scan.rs
+//%include spec/closed_defs.rs
 
 //%slice rule.rs ident_scan fn visit_map ;; let mut i = 0; ;; block:for token in &tokens { ;; fn ident_scan(tokens: Vec<Token>, identifiers: HashMap<String, Expression>) -> std::result::Result<(), de::Error> ;; Ok(())
 
